@@ -212,7 +212,9 @@ pub fn compat(gen_tag: u8, k: Kind) -> bool {
         tag::FROZENSET => k == FrozenSet,
         tag::CALLABLE | tag::GLOBAL => k == Callable,
         tag::INSTANCE => k == Object,
-        _ => false, // Extension / Any placeholders are never created
+        // the generator's own "unknown" placeholders (unused today) claim nothing about the kind
+        tag::ANY | tag::EXTENSION => true,
+        _ => false,
     }
 }
 
